@@ -359,6 +359,7 @@ def run(prog, chk):
     line_break_agreement(prog, chk, "C15.i")
     comment_bytes_not_copied(prog, chk, "C15.o")
     text_only_through_escaper(prog, chk, "C15.p")
+    container_results_typed(prog, chk, "C15.q")
     from .. import balance
     balance.check(prog, chk, "C15.l", [f for f in prog.functions.values() if f.file.endswith("Json.cpp") and (f.cls or "").startswith("Json::Private")], "Json::Private")
     chk.rule("C15.j", "MPT: every cursor / line field the tokenizer advances is set again in Private::parse before the first tokenizer call (a Parser is reused across documents)", floor=2)
@@ -714,3 +715,41 @@ def text_only_through_escaper(prog, chk, rid):
                             "re-parsed key differs - two keys can collapse into one" % q.no_casts(f.r(c))[:50], evals=1)
     chk.ok(rid, f, "%d appendEscapedString call(s); %d direct appends of String-valued expressions, none of tree text" % (len(esc), n),
            "%s:%s" % (f.file, f.line), "callee / origin scan", evals=n + len(esc))
+
+
+def container_results_typed(prog, chk, rid):
+    """`[]` and `{}` are values too: the array / object parser has to turn its result into a list / map on every successful path, not only
+    when it stores the first element - otherwise the empty container parses to null and toString -> parse is no longer the identity."""
+    chk.rule(rid, "MPT: every `return true` of Json::Private::parseArray / parseObject has passed a call that makes `result` a list / a map "
+                  "(result.toList() / result.toMap(), or an assignment of one to result)", floor=2)
+    for nm, conv, ty in (("parseArray", "toList", "List<"), ("parseObject", "toMap", "HashMap<")):
+        fs = [f for f in prog.functions.values() if f.name == "Json::Private::" + nm and f.blocks]
+        if not fs:
+            raise AnalysisBroken("Json::Private::%s not found" % nm)
+        f = fs[0]
+        res = f.params[0]["n"]
+        made = []
+        for c in q.calls(f):
+            cal = f.nodes[c].get("callee") or ""
+            o = q.call_object(f, c)
+            if cal == "Variant::" + conv and o is not None and q.no_casts(f.r(o)) == res:
+                made.append(c)
+            if cal.startswith("Variant::operator=") and q.no_casts(f.r(c)).startswith(res + ".operator=(") or \
+               (f.nodes[c]["k"] == "CXXOperatorCallExpr" and f.nodes[c].get("oop") == "=" and len(f.nodes[c]["c"]) == 3 and
+                    q.no_casts(f.r(f.nodes[c]["c"][1])) == res and ty in (f.nodes[f.strip(f.nodes[c]["c"][2])].get("t") or "")):
+                made.append(c)
+        rets = [i for i, n in enumerate(f.nodes) if n["k"] == "ReturnStmt" and n["c"] and fin.eval_expr(f, n["c"][0], {}) != 0 and f.node_pos(i) is not None]
+        bad = None
+        for r in rets:
+            if f.find_path(f.entry_pos(), {f.node_pos(r)}, avoid=q.pos_of(f, made), after_src=False) is not None:
+                bad = r
+        if not rets:
+            raise AnalysisBroken("Json::Private::%s: no successful return found" % nm)
+        if bad is None and made:
+            chk.ok(rid, f, "%s: every successful return has made the result a %s" % (nm, "list" if conv == "toList" else "map"), f.where(made[0]),
+                   "no path to a `return true` avoids %s.%s()" % (res, conv), evals=len(rets) + 1)
+        else:
+            chk.bad(rid, f, "empty-container-stays-null:" + nm, f.where(bad if bad is not None else rets[0]),
+                    "%s can return true without `%s.%s()` having been evaluated (the loop body never runs for `%s`): the empty %s parses to "
+                    "null, and parsing the output of toString no longer yields an equal tree" % (
+                        nm, res, conv, "[]" if conv == "toList" else "{}", "list" if conv == "toList" else "map"), evals=len(rets) + 1)
